@@ -38,6 +38,7 @@ ARGS = [("int", 1), ("list", [("int", 0), ("int", 2)])]
 I = c05.I
 V = c05.V
 ATOMS = [I(0), I(1), I(-1), V("x"), V("y"), V("z"), V("w"), ("null",), ("break", 0, None), ("return", None), ("raw", "_"), ("raw", "[1, -2]"),
+         ("raw", "(pop z)"), ("raw", "(swap z[0], z[1])"), ("raw", "(remove z[0])"),
          ("raw", "{1: y}"), ("raw", "(1 f1 2 f2 3)"), ("raw", "max(1, 2)"), ("raw", "(_ + 1)(x)"), ("raw", "(y - 1)"), ("raw", "(-y)")]
 
 
@@ -49,6 +50,10 @@ def unary(e):
     yield ("raw1", "(import %s)", e)
     yield ("raw1", "(y f1 %s f2 z)", e)
     yield ("raw1", "(freeze %s)", e)
+    # assignments THROUGH an index / slice to an outer variable (freeze must refuse them like bare assignments)
+    yield ("raw1", "(z[0] = %s)", e)
+    yield ("raw1", "(z[0] += %s)", e)
+    yield ("raw1", "(every z[0:1] = %s)", e)
 
 
 _memo = {}
@@ -100,6 +105,7 @@ class Fail(Exception):
 
 
 RAW_INFO = {
+    "(pop z)": ("mutates", "z"), "(swap z[0], z[1])": ("mutates", "z"), "(remove z[0])": ("mutates", "z"),
     "_": ("fail",), "[1, -2]": ("ok", set(), set()), "{1: y}": ("ok", {"y"}, set()), "(1 f1 2 f2 3)": ("ok", {"f1", "f2"}, set()),
     "max(1, 2)": ("ok", {"max"}, set()), "(_ + 1)(x)": ("ok", {"x"}, set()), "(y - 1)": ("ok", {"y"}, set()), "(-y)": ("ok", {"y"}, set()),
 }
@@ -111,6 +117,10 @@ def analyse(e, bound, info):
     section_position = info.pop("underscore_ok", False)
     if t == "raw":
         r = RAW_INFO[e[1]]
+        if r[0] == "mutates":
+            if r[1] not in bound:
+                raise Fail()      # pop / remove / swap assign to the variable they name
+            return
         if r[0] == "fail":
             if section_position:
                 return        # an underscore as chain operand / call callee or argument / list element makes a section
@@ -121,6 +131,12 @@ def analyse(e, bound, info):
     if t == "raw1":
         if "import" in e[1]:
             raise Fail()
+        if e[1].startswith("(z[") or e[1].startswith("(every z["):
+            # as for a bare assignment the target is looked at first: an outer z cannot be assigned through an index
+            if "z" not in bound:
+                raise Fail()
+            analyse(e[2], bound, info)
+            return
         for n in ("y", "f1", "f2", "z"):
             if n in e[1].replace("%s", ""):
                 read(n, bound, info)
